@@ -319,6 +319,9 @@ func runCase(c *wk.Ctx, i int) {
 		for k, v := range tc.st {
 			c.Count(k, v)
 		}
+		if tc.cache != nil {
+			tc.cache.Close(true)
+		}
 	}()
 	if tc.internal && len(tc.L) == 0 {
 		// Observed on the unchanged tree: Writer.Close of a table without entries
@@ -392,8 +395,5 @@ func runCase(c *wk.Ctx, i int) {
 		}
 		s["observed"] = st
 		c.Sample(s)
-	}
-	if tc.cache != nil {
-		tc.cache.Close(true)
 	}
 }
